@@ -85,7 +85,7 @@ def setup_classes(check):
             if self.eof is not None and self.eof():
                 raise StopIteration
             dur = DYN_DURATION if (not self.animated or d.duration is FrameDuration.DYNAMIC) else d.duration
-            return Frame(d.frame_offset, dur, d.size, base_output(d.frame_offset, render_args[R].foo))
+            return Frame(d.frame_offset, dur, d.size, base_output(d.frame_offset, render_args[R].foo, self.animated and d.duration is FrameDuration.DYNAMIC))
 
     class RArgs(ArgsNamespace, render_cls=R):
         foo: int = 0
@@ -110,11 +110,12 @@ def setup_classes(check):
     )
 
 
-def base_output(number, foo):
-    """render output of frame `number` with render argument `foo`"""
+def base_output(number, foo, dynamic=False):
+    """render output of frame `number` with render argument `foo` (and the duration mode)"""
+    tag = "D" if dynamic else "S"
     if core.ENG is None:
-        return f"F{number}a{foo}"
-    return tstr.TStr([tstr.Lit("F"), tstr.Dec(term(number)), tstr.Lit("a"), tstr.Dec(term(foo))])
+        return f"F{number}a{foo}{tag}"
+    return tstr.TStr([tstr.Lit("F"), tstr.Dec(term(number)), tstr.Lit("a"), tstr.Dec(term(foo)), tstr.Lit(tag)])
 
 
 class Model:
